@@ -75,7 +75,12 @@ func driverMain() {
 	}
 	env = setEnv(env, "GOFLAGS", strings.Join(kept, " "))
 
-	cmd := exec.Command("go", "list", "-f", "{{.Dir}}", "goa.design/goa/v3/middleware")
+	// run.sh points the build at another goa tree (VERIF_REPO) through an alternate go.mod
+	var modflag []string
+	if mf := os.Getenv("VERIF_MODFILE"); mf != "" {
+		modflag = []string{"-modfile=" + mf}
+	}
+	cmd := exec.Command("go", append(append([]string{"list"}, modflag...), "-f", "{{.Dir}}", "goa.design/goa/v3/middleware")...)
 	cmd.Dir, cmd.Env, cmd.Stderr = root, env, os.Stderr
 	out, err := cmd.Output()
 	if err != nil {
@@ -97,7 +102,7 @@ func driverMain() {
 	defer os.Remove(overlay)
 
 	inner := filepath.Join(work, "c19.inner."+suffix)
-	build := exec.Command("go", "build", "-tags", "verif,c19overlay", "-overlay", overlay, "-o", inner, "./cmd/c19")
+	build := exec.Command("go", append(append([]string{"build"}, modflag...), "-tags", "verif,c19overlay", "-overlay", overlay, "-o", inner, "./cmd/c19")...)
 	build.Dir, build.Env = root, env
 	if log, err := build.CombinedOutput(); err != nil {
 		os.Remove(overlay)
@@ -105,13 +110,12 @@ func driverMain() {
 		harnessFail("inner harness does not build against the goa tree (overlay %v): %v", replace, err)
 	}
 	os.Remove(overlay)
-	final := filepath.Join(work, "c19.inner")
-	if err := os.Rename(inner, final); err != nil {
-		harnessFail("%v", err)
-	}
-	args := append([]string{final}, os.Args[1:]...)
-	if err := syscall.Exec(final, args, os.Environ()); err != nil {
-		harnessFail("exec %s: %v", final, err)
+	fmt.Fprintf(os.Stderr, "C19 driver: inner harness built against %s\n", filepath.Dir(mwDir))
+	// the inner binary is private to this run (concurrent runs against different trees must
+	// not exec each other's build); it unlinks itself when it starts (see main)
+	args := append([]string{inner}, os.Args[1:]...)
+	if err := syscall.Exec(inner, args, os.Environ()); err != nil {
+		harnessFail("exec %s: %v", inner, err)
 	}
 }
 
